@@ -2069,18 +2069,26 @@ func c17RaceSig(cell string, r c17Race) string {
 			known = append(known, f)
 		}
 	}
-	all := func(pred func(string) bool) bool {
+	// at least one access is in the construct's code, the other one is too or is the creation of
+	// the object (the creator closure registered by an init function: `…pkg/xx.init`), i.e. the
+	// object reached the other routine without synchronization
+	rule := func(pred func(string) bool) bool {
+		hit := false
 		for _, f := range known {
-			if !pred(f) {
+			switch {
+			case pred(f):
+				hit = true
+			case strings.HasSuffix(f, ".init"):
+			default:
 				return false
 			}
 		}
-		return 0 < len(known)
+		return hit
 	}
 	switch {
-	case cell == "dispatch-race" && all(c17MethodObjectFrame):
+	case cell == "dispatch-race" && rule(c17MethodObjectFrame):
 		return "race kind=method-object-updated-in-place"
-	case strings.HasPrefix(cell, "shared-") && all(c17FirstEvalFrame):
+	case strings.HasPrefix(cell, "shared-") && rule(c17FirstEvalFrame):
 		return "race kind=first-evaluation-rewrites-shared-code"
 	}
 	top := r.Top
